@@ -9,7 +9,8 @@ class CharacterDataGenerator(XMLGenerator):
     """XMLGenerator that writes carriage returns as character references.
 
     A literal carriage return in character data is turned into a line feed
-    by every xml parser (end-of-line normalization).
+    by every xml parser (end-of-line normalization). Namespace URIs are
+    escaped like any other attribute value.
     """
 
     def characters(self, content: str) -> None:
@@ -19,6 +20,12 @@ class CharacterDataGenerator(XMLGenerator):
             if not isinstance(content, str):
                 content = str(content, self._encoding)  # type: ignore
             self._write(escape(content, {"\r": "&#13;"}))  # type: ignore
+
+    def startPrefixMapping(self, prefix: str | None, uri: str) -> None:
+        """Queue the namespace declaration with an escaped attribute value."""
+        super().startPrefixMapping(prefix, uri)
+        entities = {"\n": "&#10;", "\r": "&#13;", "\t": "&#9;", '"': "&quot;"}
+        self._undeclared_ns_maps[-1] = (prefix, escape(uri, entities))
 
 
 class XmlEventWriter(XmlWriter):
